@@ -206,6 +206,17 @@ fn run_case(s: &mut Suite, cli: &str, aws: bool, n: usize, o: &Opts) {
 		let _ = std::fs::remove_dir_all(&base);
 		return;
 	}
+	// a successful run leaves four files, whatever the base names look like (counted below the
+	// output directory, so that names with a path in them count too)
+	{
+		fn count(dir: &std::path::Path) -> usize {
+			std::fs::read_dir(dir).map(|d| d.filter_map(|e| e.ok()).map(|e| if e.path().is_dir() { count(&e.path()) } else { 1 }).sum()).unwrap_or(0)
+		}
+		let n = count(std::path::Path::new(&out_dir));
+		if n != 4 && o.prior.is_none() {
+			s.rep.violate("C18:four-files", "the tool exited successfully but did not leave four files: one output overwrote another", format!("{}\nfiles below the output directory: {} ({:?})", replay, n, listed));
+		}
+	}
 	if !model_ok {
 		let _ = std::fs::remove_dir_all(&base);
 		return;
@@ -410,6 +421,12 @@ pub fn run(ctx: &mut Ctx) -> Report {
 		}
 	}
 	cases.push(Opts { cert: "leaf".into(), ca: "authority".into(), dir_exists: false, ..base.clone() });
+	// base names that are different strings and the same file
+	cases.push(Opts { cert: "./root-ca.key".into(), ca: "root-ca".into(), ..base.clone() });
+	cases.push(Opts { cert: "leaf".into(), ca: "./leaf".into(), ..base.clone() });
+	cases.push(Opts { cert: ".//x".into(), ca: "x".into(), dir_exists: false, ..base.clone() });
+	cases.push(Opts { cert: "a/../x.key".into(), ca: "x".into(), ..base.clone() });
+	cases.push(Opts { cert: "x".into(), ca: "./././x.key".into(), ..base.clone() });
 	// names that look like another kind of name: everything that is not an IP literal is a DNS name
 	cases.push(Opts { san: vec!["ops@crabs.example".into(), "spiffe://crabs.example/workload".into(), "http://a.example/".into(), "a.example:443".into(), "user@10.0.0.1".into(), "urn:uuid:0".into()], server: true, ..base.clone() });
 	cases.push(Opts { san: vec!["mail@x".into()], ..base.clone() });
